@@ -708,7 +708,7 @@ package badger
 //@   props C03 C36 C27
 //@   light
 //@   assert[key-at-entry-version] before call KeyWithTs : arg0 == e.Key && arg1 == e.version
-//@   assert[queued-last] before call append : len(arg1) == 1 && arg1[0] == e && e.Key == ret(KeyWithTs#1) && (keepTogether ==> e.meta&bitTxn != 0)
+//@   assert[queued-last] before call append : len(arg1) == 1 && arg1[0] == e && e.Key == ret(KeyWithTs#1) && (keepTogether ==> e.meta == old(e.meta) | bitTxn) && (!keepTogether ==> e.meta == old(e.meta))
 
 // ---- DropPrefix (C29): "no key starting with the prefix" is a statement about user keys ----
 
